@@ -44,7 +44,7 @@ def enc(n):
 
 
 class Gen:
-    def __init__(self, rng, nconstr=2, naxioms=3, nrules=1, nested=False, disjoint=False, nsugar=0):
+    def __init__(self, rng, nconstr=2, naxioms=3, nrules=1, nested=False, disjoint=False, nsugar=0, nquoted=0):
         self.r = rng
         self.constr = [('\\imp', 2)] + [(f'\\c{i}', rng.choice([0, 1, 2, 1])) for i in range(nconstr)]
         # declared notations: \nK p0 .. := rhs over (a subset of) the parameters and the earlier constructors
@@ -55,6 +55,11 @@ class Gen:
             keep = [p for p in ps if rng.random() < 0.75] or [ps[-1]]      # some notations ignore an argument
             self.sugar[f'\\n{i}'] = (ar, self.term(2, keep))
             self.constr.append((f'\\n{i}', ar))
+        # quoted string-literal constants in the style of the K-generated benchmarks (transfer-goal.mm):
+        #   string-literal-k-is-symbol $a #Symbol "sk"-symbol $.   string-literal-k-is-pattern $a #Pattern "sk" $.
+        #   string-literal-k-is-sugar $a #Notation "sk" "sk"-symbol $.
+        self.quoted = [f'"s{i}"' for i in range(nquoted)]
+        self.constr += [(q, 0) for q in self.quoted]
         self.nested, self.disjoint = nested, disjoint
         self.assertions = {}      # label -> (vars in db order, [hyp terms], concl term)
         self.dv = {}              # label -> list of disjoint pairs (chosen when the text is produced)
@@ -90,6 +95,8 @@ class Gen:
     def wff(self, t):
         if isinstance(t, str):
             return (f'{t}-is-pattern', [])
+        if t[0] in self.quoted:
+            return (f'string-literal-{self.quoted.index(t[0])}-is-pattern', [])
         name = t[0][1:] + '-is-pattern'
         return (name, [self.wff(x) for x in t[1:]])
 
@@ -148,12 +155,18 @@ class Gen:
 
     # ---- text
     def preamble(self):
-        consts = ['#Pattern', '|-', '(', ')'] + [c for c, _ in self.constr] + (['#Notation'] if self.sugar else [])
+        consts = ['#Pattern', '|-', '(', ')'] + [c for c, _ in self.constr] + (['#Notation'] if self.sugar or self.quoted else []) + \
+                 (['#Symbol'] + [q + '-symbol' for q in self.quoted] if self.quoted else [])
         out = ['$c ' + ' '.join(consts) + ' $.', '$v ' + ' '.join(VARS) + ' $.']
         if self.global_d:        # growing top-level disjointness lists
             out += ['$d ph0 ph1 $.', '$d ph2 ph3 $.', '$d ph0 ph1 ph2 ph3 $.']
         out += [f'{v}-is-pattern $f #Pattern {v} $.' for v in VARS]
+        for k, q in enumerate(self.quoted):
+            out += [f'string-literal-{k}-is-symbol $a #Symbol {q}-symbol $.', f'string-literal-{k}-is-pattern $a #Pattern {q} $.',
+                    f'string-literal-{k}-is-sugar $a #Notation {q} {q}-symbol $.']
         for c, a in self.constr:
+            if c in self.quoted:
+                continue
             out.append(f'{c[1:]}-is-pattern $a #Pattern ' + show((c,) + tuple(VARS[:a])) + ' $.')
             if c in self.sugar:
                 out.append(f'{c[1:]}-is-sugar $a #Notation ' + show((c,) + tuple(VARS[:a])) + ' ' + show(self.sugar[c][1]) + ' $.')
